@@ -165,3 +165,7 @@ mod tests {
         assert!(k3 < k4);
     }
 }
+
+#[cfg(kani)]
+#[path = "/verif/kani/storage/ordered_key.rs"]
+mod kani_harness;
